@@ -146,6 +146,12 @@ func H_C18_Ctx(shape int) {
 	base := openReal(stubDialector{}, s, &gorm.Config{PrepareStmt: prepare})
 	tag := verifrt.Intn("tag", 1, 1000)
 	ctx := context.WithValue(context.Background(), ctxTagKey{}, tag)
+	// the handles may be derived from a mid-chain handle (one returned by a chain
+	// method): WithContext / Session{Context} start a session of their own there too
+	viaMid := verifrt.Bool("via_mid")
+	if viaMid {
+		base = base.Set("verif:key", 1)
+	}
 	var db *gorm.DB
 	if verifrt.Bool("via_session") {
 		db = base.Session(&gorm.Session{Context: ctx})
@@ -170,6 +176,10 @@ func H_C18_Ctx(shape int) {
 		child = db.Session(&gorm.Session{Context: octx})
 	case 4:
 		child = db.Where("age > ?", 1).Session(&gorm.Session{Context: octx, NewDB: true})
+	}
+	if viaMid && child != nil {
+		// a sibling bound to the other context, derived from the same mid-chain handle
+		child = base.WithContext(octx)
 	}
 	if child != nil {
 		var probe Item
